@@ -184,7 +184,7 @@ pub fn c26(args: Args) {
     let mut run = Run::new(args.clone(), "exploration",
         "random delete/revive/purge histories over users, groups, service accounts and certificate entries that depend on a user, with simulated time advanced by amounts around the 7-day retention and changelog windows; after every operation a per-entry state machine is checked against the dumps before/after (delete -> recycled incl. cascade, revive only from recycled and restores direct memberships of still-live groups and cascade-deleted dependents, purge tombstones only entries recycled longer than the retention period, tombstones reaped only after the changelog window, nothing returns to live without a revive) and visibility is probed through real searches as a recycle-bin admin; non-trivial = history with an effective delete followed by an accepted revive or by a purge that tombstoned something; distinct by full op list");
     let prof = Profile {
-        replicas_min: 1, replicas_max: 1, file_backed: false, ops_min: 25, ops_max: 70, prefill: 0, long_gaps_when_replicated: false, level: kanidmd_lib::constants::DOMAIN_TGT_LEVEL, unique_names: false, home_creates: false, skewed_quarters: 0,
+        replicas_min: 1, replicas_max: 1, file_backed: false, ops_min: 25, ops_max: 70, prefill: 0, long_gaps_when_replicated: false, level: kanidmd_lib::constants::DOMAIN_TGT_LEVEL, unique_names: false, home_creates: false, skewed_quarters: 0, late_joiner: false,
         pop: Pop { persons: 3, services: 1, groups: 3, dyngroups: 0, oauths: 0, certs: 3, names: 6 },
         w: Weights { create: 34, add_member: 16, rem_member: 3, rename: 3, set_desc: 3, delete: 16, revive: 14, purge_recycled: 8, purge_tombstones: 6, advance_small: 4, advance_big: 14, abort: 2, ..Default::default() },
     };
@@ -211,7 +211,7 @@ pub fn c09(args: Args) {
     run.assume("a refresh replaces the whole content of the refreshed replica by design: deletions known only to that replica are lost with it and are not judged");
     run.assume("every object is created at most once per history, so a uuid that is live after its deletion can only have been resurrected");
     let prof = Profile {
-        replicas_min: 2, replicas_max: 3, file_backed: false, ops_min: 15, ops_max: 60, prefill: 0, long_gaps_when_replicated: true, level: kanidmd_lib::constants::DOMAIN_TGT_LEVEL, unique_names: true, home_creates: true, skewed_quarters: 0,
+        replicas_min: 2, replicas_max: 3, file_backed: false, ops_min: 15, ops_max: 60, prefill: 0, long_gaps_when_replicated: true, level: kanidmd_lib::constants::DOMAIN_TGT_LEVEL, unique_names: true, home_creates: true, skewed_quarters: 0, late_joiner: false,
         pop: Pop { persons: 3, services: 1, groups: 3, dyngroups: 0, oauths: 0, certs: 0, names: 6 },
         w: Weights { create: 30, set_desc: 14, rename: 4, add_member: 10, rem_member: 3, delete: 14, purge_recycled: 6, purge_tombstones: 6, advance_small: 6, advance_big: 10, repl: 22, abort: 1, ..Default::default() },
     };
